@@ -872,7 +872,7 @@ func runC10(r *drv.Run) drv.Spec {
 			"allowed exported functions, exactly: wuffs_<pkg>__<recv>__<name> for every func declared pub in the parsed sources, and for every pub struct S: wuffs_<pkg>__S__initialize, wuffs_<pkg>__S__alloc, sizeof__wuffs_<pkg>__S, wuffs_<pkg>__S__alloc_as__wuffs_base__<iface>, wuffs_<pkg>__S__upcast_as__wuffs_base__<iface>; crt _init/_fini; base (hand-written C) is exempt from the export clause only",
 			"calloc/free 'solely from the alloc functions' is observed by calling every exported *__alloc under an interposed allocator that records return addresses, and by counting allocator calls during decodes (must be 0); an allocator call on a path no workload reaches is not seen",
 			"seccomp strict mode permits read/write/exit/sigreturn: a library that wrote to an already open descriptor would not be killed (it would still show up as an undefined symbol); vDSO calls (time, clock_gettime) are not system calls and are likewise caught only by the symbol leg",
-			"writable data = bytes of writable PT_LOADs outside the page-rounded PT_GNU_RELRO range, compared with a control object built from an empty file with the same flags, cross-checked against /proc/self/maps page protections",
+			"writable data = bytes of writable PT_LOADs outside the page-rounded PT_GNU_RELRO range, compared with a control object built from an empty file with the same flags, cross-checked against /proc/self/maps page protections; the control's 16 bytes are __dso_handle (8) and crtbegin's 1-byte completed flag padded to 8, so static data of <= 7 bytes with alignment <= 4 can hide in that padding from the size comparison and is then seen only by the before/after hash when a workload writes it",
 			"the seccomp decode leg covers every std struct implementing io_transformer, image_decoder, token_decoder or hasher_* for which the corpus has inputs; packages without inputs (see packages_without_direct_seccomp_decode) are exercised only as dependencies; generated (non-std) packages are not yet covered (hook c10generated)",
 		},
 		MinEvals: 200, MinClasses: 150,
@@ -952,20 +952,32 @@ func runC10(r *drv.Run) drv.Spec {
 	}
 
 	drv.Logf("C10: builds ready at %.1fs", time.Since(r.Start).Seconds())
+	// VERIF_C10_LEGS (development aid) restricts the run to some legs; a
+	// restricted run that sees no violation ends inconclusive (thresholds).
+	leg := func(name string) bool {
+		v := os.Getenv("VERIF_C10_LEGS")
+		return v == "" || strings.Contains(","+v+",", ","+name+",")
+	}
 	var pureWg sync.WaitGroup
-	pureWg.Add(1)
-	go func() {
-		defer pureWg.Done()
+	if leg("pure") {
+		pureWg.Add(1)
+		go func() {
+			defer pureWg.Done()
+			t0 := time.Now()
+			c10pureLeg(e)
+			drv.Logf("C10: pure-call leg (wdrive) took %.1fs", time.Since(t0).Seconds())
+		}()
+	}
+	if leg("inspect") {
 		t0 := time.Now()
-		c10pureLeg(e)
-		drv.Logf("C10: pure-call leg (wdrive) took %.1fs", time.Since(t0).Seconds())
-	}()
-	t0 := time.Now()
-	env.inspectAndJudge(e, env.pkgs, map[string]bool{"base": true})
-	drv.Logf("C10: inspect leg took %.1fs", time.Since(t0).Seconds())
-	t0 = time.Now()
-	env.runDecodes(e)
-	drv.Logf("C10: seccomp decode leg took %.1fs", time.Since(t0).Seconds())
+		env.inspectAndJudge(e, env.pkgs, map[string]bool{"base": true})
+		drv.Logf("C10: inspect leg took %.1fs", time.Since(t0).Seconds())
+	}
+	if leg("decode") {
+		t0 := time.Now()
+		env.runDecodes(e)
+		drv.Logf("C10: seccomp decode leg took %.1fs", time.Since(t0).Seconds())
+	}
 	c10generated(e, env)
 	pureWg.Wait()
 	r.Extra["packages"] = len(env.pkgs)
